@@ -214,6 +214,25 @@ def main():
             return 2
         print("setup: %d binaries ready" % len(bins))
         return 0
+    if args[0] == "--selftest":
+        # self-test of the weak memory model: forbidden litmus outcomes must never appear, the racy MP must be reported
+        jobs = [vprops.job("litmus", 0, variant="prod_ndebug")]
+        bins, err = build_all(jobs)
+        if bins is None:
+            print("BUILD-FAILED\n" + err)
+            return 2
+        exe = list(bins.values())[0]
+        out = os.path.join(BUILD, "selftest-%d.json" % os.getpid())
+        r = sh([exe, "--campaign", "--prop", "C03", "--cases", "130000", "--weak", "--window", "16", "--replay-dir", BUILD, "--out", out,
+                "--known", "data_race:mp_relaxed_race", "--shrink-s", "2"])
+        d = json.load(open(out))
+        bad = [v for v in d["violations"]]
+        print("litmus: %d cases, forbidden outcomes: %d, racy message-passing reported %d times, weak outcomes seen: %s" % (
+            d["evaluations"], len(bad), d.get("known_finding_hits", {}).get("data_race:mp_relaxed_race", 0),
+            {k: v for k, v in d["labels"].items()}))
+        for v in bad:
+            print("  FORBIDDEN/UNEXPECTED: %s %s %s" % (v["cfg"], v["kind"], v["message"]))
+        return 1 if bad or not d.get("known_finding_hits") else 0
     build_only = False
     if args[0] == "--build":
         build_only = True
